@@ -3,6 +3,18 @@
 set -e
 cd "$(dirname "$0")"
 export CARGO_NET_OFFLINE=true
+# regenerate the tables from /repo's current sources (builds the hook test binary), then build everything
+python3 -m vlib.translate
+python3 - <<'PY'
+import os
+root = 'lean/Sylvia'
+mods = []
+for d, _, fs in os.walk(root):
+    for f in sorted(fs):
+        if f.endswith('.lean'):
+            mods.append(os.path.relpath(os.path.join(d, f), 'lean')[:-5].replace('/', '.'))
+open('lean/Sylvia.lean', 'w').write(''.join('import %s\n' % m for m in sorted(mods)))
+PY
 (cd lean && lake build Sylvia svmodel)
 python3 - <<'PY'
 import sys
